@@ -129,7 +129,7 @@ pub fn run_c20(out: &mut Out, rng: &mut Rng, tier: Tier) -> String {
         }
     }
     // beyond 1024 / 4096 elements (4-digit labels)
-    for (nr, nc) in [(64usize, 65usize), (3, 1400)] {
+    for (nr, nc) in [(64usize, 65usize), (3, 1400), (257, 300)] {
         out.case(&format!("fmt large shape={nr}x{nc}"));
         let logical: Vec<Vec<usize>> = (0..nr).map(|r| (0..nc).map(|c| [12usize, 13, 1, 0, 3, 2][(r * 7 + c) % 6]).collect()).collect();
         one(out, nr, nc, &logical);
